@@ -141,6 +141,121 @@ theorem C12_rewire_unknown {c : Conv} (h : WF c) (rw : List (Str × Str))
     exact hunk r hr s (by simp [Record.allP, hs])
   rw [this]; rfl
 
+
+/-- the per-record function of `rewire` -/
+def rewireRec (c : Conv) (rw : List (Str × Str)) (r : Record) : Record :=
+  match firstUpgrade r.pfx r.pSyn rw with
+  | none => r
+  | some new => if new == r.uri then r else upgradeUri c r new
+
+theorem rewire_eq (c : Conv) (rw : List (Str × Str)) :
+    rewire c rw = Conv.init? (c.records.map (rewireRec c rw)) := rfl
+
+theorem has_revMap_iff {c : Conv} (h : WF c) (k : Str) :
+    Dict.has c.revMap k = true ↔ ∃ r ∈ c.records, k ∈ r.allU := by
+  unfold Dict.has
+  rw [h.mirror.rm]
+  unfold Spec.ownerU
+  cases hf : c.records.find? (fun r => r.allU.contains k) with
+  | none =>
+    simp only [Option.map_none, Option.isSome_none, Bool.false_eq_true, false_iff]
+    rintro ⟨r, hr, hk⟩
+    have := List.find?_eq_none.mp hf r hr
+    simp [hk] at this
+  | some r =>
+    simp only [Option.map_some, Option.isSome_some, true_iff]
+    exact ⟨r, List.mem_of_find?_eq_some hf, by simpa using List.find?_some hf⟩
+
+theorem recOK_upgradeUri (c : Conv) (r : Record) (new : Str) (h : RecOK r) : RecOK (upgradeUri c r new) := by
+  unfold upgradeUri
+  split
+  · exact h
+  · refine ⟨h.1, ?_⟩
+    show new ∉ setUpdate r.uSyn r.uri [new]
+    rw [mem_setUpdate]; simp
+
+theorem rewireRec_fields (c : Conv) (rw : List (Str × Str)) (r : Record) :
+    (rewireRec c rw r).pfx = r.pfx ∧ (rewireRec c rw r).pSyn = r.pSyn ∧ ∀ k ∈ r.allU, k ∈ (rewireRec c rw r).allU := by
+  unfold rewireRec
+  split
+  · exact ⟨rfl, rfl, fun k hk => hk⟩
+  · split
+    · exact ⟨rfl, rfl, fun k hk => hk⟩
+    · have := C12_upgrade c r ‹Str›
+      exact ⟨this.1, this.2.1, this.2.2.2.1⟩
+
+theorem recOK_rewireRec (c : Conv) (rw : List (Str × Str)) (r : Record) (h : RecOK r) : RecOK (rewireRec c rw r) := by
+  unfold rewireRec
+  split
+  · exact h
+  · split
+    · exact h
+    · exact recOK_upgradeUri c r _ h
+
+/-- a record of the rewired converter is a fixed point of the same rewiring -/
+theorem rewireRec_fixed {c c' : Conv} (h : WF c) (h' : WF c') (rw : List (Str × Str))
+    (hperm : c'.records.Perm (c.records.map (rewireRec c rw))) (r : Record) (hr : r ∈ c.records) :
+    rewireRec c' rw (rewireRec c rw r) = rewireRec c rw r := by
+  have hf := rewireRec_fields c rw r
+  generalize hr' : rewireRec c rw r = r' at hf
+  unfold rewireRec
+  rw [hf.1, hf.2.1]
+  cases hu : firstUpgrade r.pfx r.pSyn rw with
+  | none => rfl
+  | some new =>
+    simp only
+    split
+    · rfl
+    · rename_i hne
+      -- `new` is not the canonical URI prefix of `r'`, so `r` was left untouched by a clash in `c`
+      have hr'2 : r' = (if new == r.uri then r else upgradeUri c r new) := by
+        rw [← hr']; unfold rewireRec; rw [hu]
+      by_cases hnr : (new == r.uri) = true
+      · rw [if_pos hnr] at hr'2
+        subst hr'2
+        exact absurd hnr hne
+      · rw [if_neg hnr] at hr'2
+        have hup := C12_upgrade c r new
+        by_cases hcl : Dict.has c.revMap new = true ∧ new ∉ r.uSyn
+        · have e : r' = r := by rw [hr'2]; exact hup.2.2.2.2.2.2 hcl
+          subst e
+          obtain ⟨s, hs, hks⟩ := (has_revMap_iff h new).mp hcl.1
+          have hs' : rewireRec c rw s ∈ c'.records :=
+            hperm.mem_iff.mpr (List.mem_map.mpr ⟨s, hs, rfl⟩)
+          have : Dict.has c'.revMap new = true :=
+            (has_revMap_iff h' new).mpr ⟨_, hs', (rewireRec_fields c rw s).2.2 new hks⟩
+          unfold upgradeUri
+          rw [if_pos (by simp [this, hcl.2])]
+        · have : Dict.has c.revMap new = false ∨ new ∈ r.uSyn := by
+            by_cases h1 : Dict.has c.revMap new = true
+            · right; exact Classical.byContradiction fun h2 => hcl ⟨h1, h2⟩
+            · left; exact Bool.eq_false_iff.mpr h1
+          have e := (hup.2.2.2.2.2.1 this).1
+          rw [← hr'2] at e
+          exact absurd (by simp [e]) hne
+
+/-- **C12 (idempotence).** Applying the same rewiring to the result of a successful rewiring
+succeeds and changes no record. -/
+theorem C12_rewire_idem {c : Conv} (h : WF c) (rw : List (Str × Str)) (c' : Conv) (hok : rewire c rw = .ok c') :
+    ∃ c'', rewire c' rw = .ok c'' ∧ c''.records.Perm c'.records := by
+  rw [rewire_eq] at hok
+  have hrec := (init?_records hok).1
+  have hperm : c'.records.Perm (c.records.map (rewireRec c rw)) := by rw [hrec]; exact sortRecords_perm _
+  have hrok : ∀ r ∈ c.records.map (rewireRec c rw), RecOK r := by
+    intro r' hr'
+    obtain ⟨r, hr, rfl⟩ := List.mem_map.mp hr'
+    exact recOK_rewireRec c rw r (h.recOK r hr)
+  have h' : WF c' := wf_of_init hrok hok
+  have hid : c'.records.map (rewireRec c' rw) = c'.records := by
+    conv => rhs; rw [← List.map_id c'.records]
+    apply List.map_congr_left
+    intro r' hr'
+    obtain ⟨r, hr, rfl⟩ := List.mem_map.mp (hperm.mem_iff.mp hr')
+    exact rewireRec_fixed h h' rw hperm r hr
+  rw [rewire_eq, hid]
+  obtain ⟨c'', hc''⟩ := (init?_ok_iff c'.records [58]).mpr h'.unique
+  exact ⟨c'', hc'', by rw [(init?_records hc'').1]; exact sortRecords_perm _⟩
+
 /-- Non-vacuity: an upgrade onto an unused URI prefix, a synonym promoted to canonical, and a
 clash with another record that is a no-op. -/
 example :
@@ -153,4 +268,15 @@ example :
        .recs [⟨[97], [118, 47], [], [[117, 47]], none⟩, ⟨[98], [119, 47], [], [], none⟩],
        .recs [⟨[97], [117, 47], [], [[118, 47]], none⟩, ⟨[98], [119, 47], [], [], none⟩],
        .err .transitive] := by
+  decide
+
+/-- Non-vacuity of idempotence: a rewiring that promotes, clashes and adds; the second application
+returns the same records. -/
+example :
+    (let c := Conv.build [58] [⟨[97], [117, 47], [[65]], [[118, 47]], none⟩, ⟨[98], [119, 47], [], [], none⟩]
+     let rw : List (Str × Str) := [([65], [119, 47]), ([98], [122, 47])]
+     match rewire c rw with
+     | .ok c' => (match rewire c' rw with | .ok c'' => (Val.recs c'.records, c''.records == c'.records) | .error e => (.err e, false))
+     | .error e => (.err e, false))
+    = (.recs [⟨[97], [117, 47], [[65]], [[118, 47]], none⟩, ⟨[98], [122, 47], [], [[119, 47]], none⟩], true) := by
   decide
